@@ -683,6 +683,9 @@ def array_sum_leaf(prog, names):
             inner = elem_term(body, x[3][0])
             cb, ups = closure_of(prog, x[3][1])
             if cb is None:
+                f_ = ds(x[3][1])
+                if isinstance(f_, tuple) and f_[0] == "fn" and f_[1].rsplit("::", 1)[-1] in T.FN1:
+                    return ("fn", f_[1].rsplit("::", 1)[-1], inner)           # a function item as the mapping: `mapv(A::ln)`
                 raise Unrecognised("map with non-closure")
             ret, _ = closure_terms(prog, cb, {2: inner}, upvar_leaf=lambda e: ("sym", "^%s" % e[2]))
             return ret
@@ -715,6 +718,11 @@ def scalar_value(prog, root, names, e=None):
         if isinstance(x, tuple) and x[0] == "call" and x[1] == "map" and len(x[3]) == 2 and ("option" in x[2] or "result::Result" in x[2]):
             cb, ups = closure_of(prog, x[3][1])
             inner = K.term(x[3][0])
+            if cb is None:
+                f_ = ds(x[3][1])
+                if isinstance(f_, tuple) and f_[0] == "fn" and f_[1].rsplit("::", 1)[-1] in T.FN1:
+                    return ("fn", f_[1].rsplit("::", 1)[-1], inner)
+                raise Unrecognised("map with `%s`" % fmt(f_)[:60])
             def reduction_of_capture(body_, y):
                 # `captured_array.sum()` inside the mapping closure: the same reduction of the captured array in the routine
                 if isinstance(y, tuple) and y[0] == "call" and y[1] in ("sum", "mean", "len") and len(y[3]) == 1:
@@ -1514,6 +1522,14 @@ def rule_c12_structure(ctx, prog, rule="R13"):
                "constructed only by EquiSpaced::new" if ok else "EquiSpaced built outside its validating constructor", what="builder without validity guard")
         if ok:
             # every path to the construction has established  zero < bin_width  and  min < max
+            # (private boolean predicates spelled out in place, their constant results threaded to the branch they select)
+            from .facts import inline_calls as _inl3, thread_constant_flags as _thr3
+            _pred3 = lambda cb: (not cb.is_closure) and cb.key not in prog.exported and (cb.raw.get("output") == "bool") and len(cb.blocks) <= 20
+            b2 = _thr3(prog, _inl3(prog, b, _pred3))
+            if b2 is not b:
+                sites2 = [(x, y) for (x, y, s_) in b2.assigns() if s_["rv"]["k"] == "agg" and s_["rv"].get("adt") == ES]
+                if len(sites2) == 1:
+                    b, (bb, si) = b2, sites2[0]
             rels = set()
             for sb in b.live_blocks():
                 st = b.term(sb)
@@ -1914,8 +1930,20 @@ def rule_moments_vector(ctx, prog, rule="R13"):
     from .rules_unsafe import bool_branch_dominating
     from .rules_result import eval_cond
     okf, fdetail = False, "anchor not recognised: no push of the first raw moment outside the k-loop"
-    outer = [s_[2] for s_ in (bulk[1] if bulk else []) if s_[0] == "push"]
-    if len(outer) == 1:
+    # the head of the vector is [one(), first moment]: the element at position 1 is the push whose guard is judged (a literal
+    # there is unconditional)
+    head_ = []
+    for s_ in (bulk[1] if bulk else []):
+        if s_[0] == "elems":
+            head_.extend(("lit", x_) for x_ in s_[1])
+        elif s_[0] == "push":
+            head_.append(("push", s_[2]))
+        elif s_[0] == "map":
+            break
+    outer = [h_[1] for h_ in head_[1:2] if h_[0] == "push"]
+    if len(head_) == 2 and head_[1][0] == "lit":
+        okf, fdetail = True, "moments[1] is part of the literal the vector starts with (present for every order)"
+    if len(head_) == 2 and len(outer) == 1:
         doms = bool_branch_dominating(tm, outer[0], lambda de: True)
         badk = []
         for k in range(2, 7):      # both callers handle orders 0 and 1 themselves (order-0-1-constant) and pass n >= 2 only
@@ -2000,16 +2028,24 @@ def lane_uses_position_vector(prog, inner, lane):
         return None
     qop, qrest = zip_operand(qit, qpath[1:])
     qroot = up(prog, lane, qop)[1] if qop is not None else None
-    if qrest or not (isinstance(ds(qroot), tuple) and ds(qroot)[0] == "param"):
+    q_in_vector = False
+    if qrest == ["0"] and qop is not None:
+        # the request value travels with its positions: V = [(q, lower?, higher?) for q in qs]
+        q_in_vector = True
+        qvec_op = qop
+    elif qrest or not (isinstance(ds(qroot), tuple) and ds(qroot)[0] == "param"):
         return False, "the q handed to the strategy is not an element of the request list zipped with the results"
+    off = 1 if q_in_vector else 0
     vec = None
     for which in (0, 1):
         xpath, xit = item_path(a[which][3][0])
         if xpath is None or xit != qit or xpath[:1] != ["0"]:
             return False, "neighbour %d does not come from the same zip item as q" % which
         vop, vrest = zip_operand(xit, xpath[1:])
-        if vrest != [str(which)]:
-            return False, "neighbour %d is component %s of the position vector's item, expected %d" % (which, vrest, which)
+        if vrest != [str(which + off)]:
+            return False, "neighbour %d is component %s of the position vector's item, expected %d" % (which, vrest, which + off)
+        if q_in_vector and vop != qvec_op:
+            return False, "q and the neighbour positions come from different vectors"
         vb, ve = up(prog, lane, vop)
         ve = ds(ve)
         while isinstance(ve, tuple) and ve[0] == "call" and ve[1] in ("iter", "into_iter", "deref", "as_slice") and ve[3]:
@@ -2051,8 +2087,8 @@ def lane_uses_position_vector(prog, inner, lane):
         return False, "the position vector is mutated by %s (exactly one push expected)" % [p_[1] for p_ in pushes]
     pbb = pushes[0][0]
     val = ds(tb.call_arg_exprs(pbb)[1])
-    if not (isinstance(val, tuple) and val[0] == "agg" and len(val[3]) == 2):
-        return False, "pushed value is not a (lower?, higher?) pair"
+    if not (isinstance(val, tuple) and val[0] == "agg" and len(val[3]) == 2 + off):
+        return False, "pushed value is not a (lower?, higher?) pair" if not off else "pushed value is not a (q, lower?, higher?) triple"
     # loop: header = the `next` whose item feeds the pushed value; the push runs on every iteration
     hdr = None
     for bb, t in tb.calls():
@@ -2070,11 +2106,17 @@ def lane_uses_position_vector(prog, inner, lane):
         srcs = [x for x in srcs if not (isinstance(x, tuple) and x[0] in ("phi", "mut"))]
     src = srcs[0] if len(srcs) == 1 else it
     rb, re_, chain, bad = producer_chain(prog, tb, src)
-    if bad is not None or ds(re_) != ds(qroot) or any(ch not in ("iter", "into_iter", "view", "deref") for ch in chain):
+    want_root = ds(qroot) if not q_in_vector else None
+    if bad is not None or (want_root is not None and ds(re_) != want_root) or (q_in_vector and not (isinstance(ds(re_), tuple) and ds(re_)[0] == "param")) \
+            or any(ch not in ("iter", "into_iter", "view", "deref") for ch in chain):
         return False, "the position vector is not built by one pass over the request list in request order (%s via %s)" % (fmt(ds(re_)), chain)
     item = ("field", ("downcast", tb.call_expr(hdr), "Some"), "0")
+    if q_in_vector:
+        qc = ds(val[3][0])
+        if not any(isinstance(x, tuple) and x[0] == "call" and x[1] == "next" and x == ds(tb.call_expr(hdr)) for x in walk(qc)):
+            return False, "component 0 of the pushed triple is not the request value of that iteration"
     for which, fn in ((0, "lower_index"), (1, "higher_index")):
-        comp = ds(val[3][which])
+        comp = ds(val[3][which + off])
         defs = []
         if isinstance(comp, tuple) and comp[0] == "phi":
             defs = [ds(tb.def_expr(comp[1], d)) for d in comp[3]]
